@@ -2,8 +2,10 @@ package main
 
 import (
 	"context"
+	"encoding/json"
 	"fmt"
 	"math"
+	"os"
 	"regexp"
 	"sort"
 	"strings"
@@ -219,6 +221,59 @@ func osaDistance(a, b string) int {
 	return d[len(a)][len(b)]
 }
 
+// plain Levenshtein distance
+func levDistance(a, b string) int {
+	prev := make([]int, len(b)+1)
+	for j := range prev {
+		prev[j] = j
+	}
+	for i := 1; i <= len(a); i++ {
+		cur := make([]int, len(b)+1)
+		cur[0] = i
+		for j := 1; j <= len(b); j++ {
+			cost := 1
+			if a[i-1] == b[j-1] {
+				cost = 0
+			}
+			cur[j] = min(prev[j]+1, cur[j-1]+1, prev[j-1]+cost)
+		}
+		prev = cur
+	}
+	return prev[len(b)]
+}
+
+// resolveFuzzy rewrites every fuzzy leaf token "F field nLev lev... nOsa osa..." into the model's
+// "W field n terms..." with the Levenshtein (documented) or the transposition-aware term set, and
+// tells whether the two sets differ anywhere in the query.
+func resolveFuzzy(tok string, transpositions bool) (string, bool) {
+	ts := strings.Fields(tok)
+	var out []string
+	sensitive := false
+	for i := 0; i < len(ts); i++ {
+		if ts[i] != "F" {
+			out = append(out, ts[i])
+			continue
+		}
+		f := ts[i+1]
+		var n1, n2 int
+		fmt.Sscan(ts[i+2], &n1)
+		lev := ts[i+3 : i+3+n1]
+		fmt.Sscan(ts[i+3+n1], &n2)
+		osa := ts[i+4+n1 : i+4+n1+n2]
+		if n1 != n2 {
+			sensitive = true
+		}
+		pick := lev
+		if transpositions {
+			pick = osa
+		}
+		out = append(out, "W", f, fmt.Sprint(len(pick)))
+		out = append(out, pick...)
+		i += 3 + n1 + n2
+	}
+	return strings.Join(out, " "), sensitive
+}
+
 func anyOfTok(f string, accepted []string) string {
 	var sb strings.Builder
 	fmt.Fprintf(&sb, "W %s %d", hs(f), len(accepted))
@@ -318,16 +373,21 @@ func genLeaf(r *Rng, ids []string, kinds map[string]int) (query.Query, string) {
 		q.SetField(f)
 		q.SetFuzziness(fz)
 		q.SetPrefix(pl)
-		var acc []string
+		// the documentation says Levenshtein distance; scorch's automaton also counts an adjacent
+		// transposition as one edit: both term sets travel in the token (see resolveFuzzy)
+		var lev, osa []string
 		for _, v := range c02Vocab {
 			if pl > 0 && (len(v) < pl || len(t) < pl || v[:pl] != t[:pl]) {
 				continue
 			}
+			if levDistance(t, v) <= fz {
+				lev = append(lev, v)
+			}
 			if osaDistance(t, v) <= fz {
-				acc = append(acc, v)
+				osa = append(osa, v)
 			}
 		}
-		return q, anyOfTok(f, acc)
+		return q, "F" + anyOfTok(f, lev)[1:] + anyOfTok("", osa)[3:]
 	case 9:
 		kinds["term_range"]++
 		lo, hi := w(), w()
@@ -441,13 +501,35 @@ func genQuery(r *Rng, depth int, ids []string, kinds map[string]int) (query.Quer
 	if depth <= 0 || r.Chance(35) {
 		return genLeaf(r, ids, kinds)
 	}
+	// hot shape: a boolean with must and must_not over frequent terms, as a clause of another
+	// composite (so that it is driven through Advance with targets that sit on excluded documents)
+	hotBool := func() (query.Query, string) {
+		kinds["boolean-must-mustnot-nested"]++
+		leaf := func() (query.Query, string) {
+			f := []string{"t0", "t1"}[r.Intn(2)]
+			t := c02Vocab[r.Intn(4)]
+			q := bleve.NewTermQuery(t)
+			q.SetField(f)
+			return q, fmt.Sprintf("T %s %s", hs(f), hs(t))
+		}
+		bq := bleve.NewBooleanQuery()
+		m, mt := leaf()
+		n, nt := leaf()
+		bq.AddMust(m)
+		bq.AddMustNot(n)
+		return bq, "O 1 C 1 " + mt + " 0 1 D 0 1 " + nt + " 0"
+	}
 	kids := func(lo, hi int) ([]query.Query, string) {
 		n := r.Range(lo, hi)
 		qs := make([]query.Query, n)
 		var sb strings.Builder
 		for i := range qs {
 			var t string
-			qs[i], t = genQuery(r, depth-1, ids, kinds)
+			if r.Chance(15) {
+				qs[i], t = hotBool()
+			} else {
+				qs[i], t = genQuery(r, depth-1, ids, kinds)
+			}
 			sb.WriteString(" " + t)
 		}
 		return qs, fmt.Sprintf("%d%s", n, sb.String())
@@ -473,6 +555,39 @@ func genQuery(r *Rng, depth int, ids []string, kinds map[string]int) (query.Quer
 		dq.SetMin(float64(min))
 		return dq, fmt.Sprintf("D %d %s", min, t)
 	default:
+		if r.Chance(20) {
+			// hot shape: must + should made of plain term clauses with a minimum: the clauses the
+			// score-none bitmap optimizations replace
+			kinds["boolean-terms-minshould"]++
+			leaf := func() (query.Query, string) {
+				f := []string{"t0", "t1"}[r.Intn(2)]
+				t := c02Vocab[r.Intn(5)]
+				q := bleve.NewTermQuery(t)
+				q.SetField(f)
+				return q, fmt.Sprintf("T %s %s", hs(f), hs(t))
+			}
+			bq := bleve.NewBooleanQuery()
+			var sb strings.Builder
+			sb.WriteString("O")
+			if r.Chance(75) {
+				m, mt := leaf()
+				bq.AddMust(m)
+				sb.WriteString(" 1 C 1 " + mt)
+			} else {
+				sb.WriteString(" 0")
+			}
+			n := 2 + r.Intn(2)
+			min := r.Intn(3)
+			fmt.Fprintf(&sb, " 1 D %d %d", min, n)
+			for i := 0; i < n; i++ {
+				q, t := leaf()
+				bq.AddShould(q)
+				sb.WriteString(" " + t)
+			}
+			bq.SetMinShould(float64(min))
+			sb.WriteString(" 0 0")
+			return bq, sb.String()
+		}
 		kinds["boolean"]++
 		bq := bleve.NewBooleanQuery()
 		var sb strings.Builder
@@ -524,8 +639,17 @@ type c02Index struct {
 	ids    []string // every id ever used
 }
 
+var c02Dump = os.Getenv("C02_DUMP") != ""
+
+func c02Dbg(f string, a ...interface{}) {
+	if c02Dump {
+		fmt.Fprintf(os.Stderr, f+"\n", a...)
+	}
+}
+
 func buildC02Index(r *Rng, engine string) *c02Index {
 	ci := &c02Index{idx: newIndexWith(engine, c02Mapping()), engine: engine, live: map[string]c02Doc{}}
+	c02Dbg("NEWINDEX %s", engine)
 	nDocs := r.Range(4, 14)
 	batch := ci.idx.NewBatch()
 	for i := 0; i < nDocs; i++ {
@@ -533,7 +657,9 @@ func buildC02Index(r *Rng, engine string) *c02Index {
 		ci.live[d.id] = d
 		ci.ids = append(ci.ids, d.id)
 		must(batch.Index(d.id, d.asMap()))
+		c02Dbg("  batch.Index %s %v", d.id, d.asMap())
 		if r.Chance(35) {
+			c02Dbg("  FLUSH")
 			must(ci.idx.Batch(batch))
 			batch = ci.idx.NewBatch()
 		}
@@ -545,9 +671,11 @@ func buildC02Index(r *Rng, engine string) *c02Index {
 		if r.Bool() {
 			d := genC02Doc(r, i)
 			ci.live[id] = d
+			c02Dbg("  Index %s %v", id, d.asMap())
 			must(ci.idx.Index(id, d.asMap()))
 		} else {
 			delete(ci.live, id)
+			c02Dbg("  Delete %s", id)
 			must(ci.idx.Delete(id))
 		}
 	}
@@ -564,7 +692,7 @@ func (ci *c02Index) sortedLive() []c02Doc {
 }
 
 func runC02(t *Trace, r *Rng, tier string, _ []string) {
-	nIdx, nQ := 10, 40
+	nIdx, nQ := 24, 60
 	if tier == "thorough" {
 		nIdx, nQ = 150, 120
 	}
@@ -581,12 +709,13 @@ func runC02(t *Trace, r *Rng, tier string, _ []string) {
 		}
 		corpus := cb.String()
 		for qi := 0; qi < nQ; qi++ {
-			q, tok := genQuery(r, 3, ci.ids, kinds)
+			q, ftok := genQuery(r, 3, ci.ids, kinds)
+			// scorch is compared with the transposition-aware reading of fuzziness (what its automaton
+			// implements), and additionally with the documented one where the two differ
+			tok, sensitive := resolveFuzzy(ftok, engine == "scorch")
+			docTok, _ := resolveFuzzy(ftok, false)
 			op := "search " + corpus + " | " + tok
 			for _, opt := range []string{"plain", "noscore", "loc+explain"} {
-				if opt != "plain" && r.Chance(50) {
-					continue
-				}
 				req := bleve.NewSearchRequestOptions(q, len(ci.ids)+5, 0, opt == "loc+explain")
 				switch opt {
 				case "noscore":
@@ -595,6 +724,10 @@ func runC02(t *Trace, r *Rng, tier string, _ []string) {
 					req.IncludeLocations = true
 				}
 				sr, err := ci.idx.Search(req)
+				if c02Dump {
+					qj, _ := json.Marshal(q)
+					c02Dbg("  SEARCH %s %s -> %v", opt, qj, sr)
+				}
 				if err != nil {
 					t.Emit("search-err/"+engine+"/"+opt, true, op, "ERR "+strings.ReplaceAll(err.Error(), "\n", " "))
 					continue
@@ -630,6 +763,9 @@ func runC02(t *Trace, r *Rng, tier string, _ []string) {
 					nonTotal++
 				}
 				t.Emit("search/"+engine+"/"+opt, nt, op, res)
+				if sensitive && engine == "scorch" {
+					t.Emit("search/scorch/fuzzy-transposition-vs-documented-levenshtein", nt, "search "+corpus+" | "+docTok, res)
+				}
 			}
 		}
 		ci.idx.Close()
@@ -701,7 +837,8 @@ func runC08(t *Trace, r *Rng, tier string, _ []string) {
 		}
 		corpus := cb.String()
 		for qi := 0; qi < nQ; qi++ {
-			q, tok := genQuery(r, 3, ci.ids, kinds)
+			q, ftok := genQuery(r, 3, ci.ids, kinds)
+			tok, _ := resolveFuzzy(ftok, engine == "scorch")
 			for _, opt := range []search.SearcherOptions{{}, {Score: "none"}, {IncludeTermVectors: true, Explain: true}} {
 				if r.Chance(50) {
 					continue
